@@ -722,6 +722,7 @@ func (m *MonC12) Probe(idx int) {
 	}
 	for oi, ord := range orders {
 		bctx, _ := w.Ctx.CacheContext()
+		branchPaid := sdk.NewCoins()
 		for _, pk := range ord {
 			ai, vi := w.ActorIndex(pk.Del), w.ValIndex(pk.Val)
 			if ai < 0 || vi < 0 {
@@ -743,6 +744,11 @@ func (m *MonC12) Probe(idx int) {
 				fmt.Printf("   claim-all %s,%s,%s value %s: withdrew %s paid %s -> %s\n", w.Name(pk.Del), w.Name(pk.Val), pk.Denom, ratStr(s.Value(pk)), wd, paid, res)
 			}
 			if res.OK {
+				for _, t := range ParseEvents(res.Events).Transfers {
+					if t.From == w.PoolAddr.String() {
+						branchPaid = branchPaid.Add(t.Coins...)
+					}
+				}
 				continue
 			}
 			anyFail = true
@@ -752,7 +758,7 @@ func (m *MonC12) Probe(idx int) {
 				rep.Count("C12.claim-failed-other", 1)
 				continue
 			}
-			cause, why := m.classify(s, msg)
+			cause, why := m.classify(s, msg, branchPaid)
 			if cause != "" {
 				m.R.PoolShort = true
 				rep.KnownFinding("C12", cause, "claim-all (%s) fails on (%s,%s,%s) with %q: %s", names[oi], w.Name(pk.Del), w.Name(pk.Val), pk.Denom, msg, why)
@@ -792,7 +798,7 @@ func (m *MonC12) sumE() string {
 //     computed from the shadow is exactly what a claim-all must fall short by;
 //   - index-round-up: the index increment (reward / staked tokens, 18 digits) rounds up; the shortfall
 //     is within receipts x staked tokens x 1e-18 (only visible at 18-decimal magnitudes).
-func (m *MonC12) classify(s *Snap, msg string) (string, string) {
+func (m *MonC12) classify(s *Snap, msg string, branchPaid ...sdk.Coins) (string, string) {
 	w := m.R.W
 	have, want, denom, ok := parseInsufficient(msg)
 	if !ok {
@@ -820,7 +826,33 @@ func (m *MonC12) classify(s *Snap, msg string) (string, string) {
 	// asset and receipt
 	flows := new(big.Rat).Add(ratInt(want), ratInt(have))
 	flows.Add(flows, ratInt(s.BalOf(w.PoolAddr, denom)))
+	for _, bp := range branchPaid {
+		flows.Add(flows, ratInt(bp.AmountOf(denom))) // what earlier claims of the same claim-all run were paid
+	}
 	res.Add(res, new(big.Rat).Mul(flows, big.NewRat(int64(len(s.AssetOrder)+1)*10, 1_000_000_000_000_000_000)))
+	// the index divides by the validator's token value vs/tvs x TT computed with 18 digits: when the fraction
+	// vs/tvs is small it has few significant digits and the value (hence the index) is off by 1e-18/fraction
+	maxFracErr := new(big.Rat)
+	for _, pk := range s.DelOrder {
+		v := s.Vals[pk.Val]
+		a, ok := s.Assets[pk.Denom]
+		if v == nil || !v.HasInfo || !ok || a.TotalValidatorShares.IsZero() {
+			continue
+		}
+		vs := ratDec(decAmount(v.Info.ValidatorShares, pk.Denom))
+		if vs.Sign() <= 0 {
+			continue
+		}
+		fe := new(big.Rat).Quo(ratDec(a.TotalValidatorShares), vs)
+		fe.Mul(fe, big.NewRat(2, 1_000_000_000_000_000_000))
+		if fe.Cmp(maxFracErr) > 0 {
+			maxFracErr = fe
+		}
+	}
+	if maxFracErr.Cmp(ratI64(1)) > 0 {
+		maxFracErr = ratI64(1)
+	}
+	res.Add(res, new(big.Rat).Mul(flows, maxFracErr))
 	res.Add(res, ratI64(int64(len(s.DelOrder))+1))
 	pool := ratInt(s.BalOf(w.PoolAddr, denom))
 	excess := new(big.Rat).Sub(sumQ, pool)
@@ -855,16 +887,12 @@ func (m *MonC12) classify(s *Snap, msg string) (string, string) {
 	}
 	rounderBound := new(big.Rat)
 	if maxRel.Sign() > 0 {
-		fl := new(big.Rat).Add(ratInt(want), ratInt(have))
-		fl.Add(fl, pool)
-		rounderBound.Mul(fl, maxRel)
+		rounderBound.Mul(flows, maxRel)
 	}
 	if inflated && excess.Sign() > 0 && covered.Cmp(sumE) >= 0 && shortfall.Cmp(new(big.Rat).Add(new(big.Rat).Add(excess, res), rounderBound)) <= 0 {
 		return "slash-inflation", fmt.Sprintf("pool holds %s%s, exact entitlements at receipt sum to %s, but index x current token value sums to %s because a slash inflated position values after the rewards accrued (shortfall of this claim %s)", s.BalOf(w.PoolAddr, denom), denom, ratStr(sumE), ratStr(sumQ), ratStr(shortfall))
 	}
 	if maxRel.Sign() > 0 {
-		flows := new(big.Rat).Add(ratInt(want), ratInt(have))
-		flows.Add(flows, pool)
 		bound := new(big.Rat).Mul(flows, maxRel)
 		bound.Add(bound, ratI64(int64(len(s.DelOrder))+1))
 		if shortfall.Cmp(bound) <= 0 {
